@@ -88,7 +88,7 @@ theorem compiled_domains_proper {m : Model (Ext K)} {lm : LinModel (Ext K)} (L :
 theorem compile_domains_proper {m : Model (Ext K)} {t : K} (ht : 0 ≤ t) {maxSteps : Nat} {lm : LinModel (Ext K)}
     (h : Compile.linearize m (.fin t) maxSteps = .ok lm)
     (hm : LogicModel m m.domain) (hsh : AssertShape m) (hok : DeclOK m.domain)
-    (ht1 : t < 1 ∨ Rooc.BoundsProofs.NoIntVars m.domain) (hfeas : ∃ ρ : String → K, srcFeasible m ρ = true) :
+    (ht1 : t < 1 ∨ NoIntVars m.domain) (hfeas : ∃ ρ : String → K, srcFeasible m ρ = true) :
     ∀ dv ∈ lm.domain, ProperTy dv.ty ∧ ∃ x : K, inDomain x dv.ty = true :=
   compiled_domains_proper (objLink_of_compile ht h hm hsh hok ht1) hfeas
 
